@@ -24,7 +24,7 @@ def Dict.step (H : Bytes → UInt32) (d : Dict) : DOp → DRes × Dict
   | .dup v alias => d.dup H v alias
   | .rem v => d.remove H v
 
-/-- the implementation with the candidate repair `fixes/F50.diff` -/
+/-- the implementation with the candidate repair `fixes/F110.diff` -/
 def Dict.stepF (H : Bytes → UInt32) (d : Dict) : DOp → DRes × Dict
   | .ins v len zc alias => d.insertFixed H v len zc alias
   | .dup v alias => d.dup H v alias
@@ -59,7 +59,7 @@ def OpWf (m : SMap) : DOp → Prop
   | .dup v alias => alias = true → 0 < m v
   | .rem _ => True
 
-/-- additional hypothesis under which by-length inserts are correct (§6 F50): the prefix that is inserted does not have
+/-- additional hypothesis under which by-length inserts are correct (§6 F110): the prefix that is inserted does not have
 the same 32-bit hash as the caller's whole buffer (trivially true when the whole buffer is inserted) -/
 def OpNoPrefixCollision (H : Bytes → UInt32) : DOp → Prop
   | .ins v len _ _ => len = v.length ∨ H (v.take len) ≠ H v
